@@ -139,6 +139,40 @@ func TestStickvcReplayRender(t *testing.T) {
 			t.Fail()
 		}
 	}
+	if prop == "C14" || prop == "all" {
+		// formatting variants of the same template must render (or fail) alike
+		rnd := func(src string) string {
+			env := New(&stick.MemoryLoader{Templates: map[string]string{"t.txt": src, "inc": "I", "e": "<{% block b %}b{% endblock %}>"}})
+			env.Functions["f"] = func(ctx stick.Context, args ...stick.Value) stick.Value { return fmt.Sprint(len(args)) }
+			var b bytes.Buffer
+			if err := env.Execute("t.txt", &b, map[string]stick.Value{"x": 5, "xs": []stick.Value{1, 2}, "h": map[string]stick.Value{"k": "v"}}); err != nil {
+				return "ERR"
+			}
+			return b.String()
+		}
+		pairs := [][2]string{
+			{"{{ x }}", "{{x}}"}, {"{{ x }}", "{{\tx\n}}"}, {"{{ x }}", "{{\r\nx\r\n}}"}, {"{{ x + 1 }}", "{{x+1}}"}, {"{{ x + 1 }}", "{{ x\n+\n1 }}"},
+			{"{{ x and true }}", "{{ x and\ntrue }}"}, {"{{ not x }}", "{{ not\tx }}"}, {"{{ not (x) }}", "{{ not(x) }}"},
+			{"{{ f() }}", "{{ f( ) }}"}, {"{{ f(1, 2) }}", "{{ f(1,2) }}"}, {"{{ f(1, 2) }}", "{{ f( 1 , 2 ) }}"}, {"{{ f(1, 2) }}", "{{ f(\n1,\n2\n) }}"},
+			{"{{ [1, 2]|join(',') }}", "{{ [1,2]|join(',') }}"}, {"{{ [1, 2]|join(',') }}", "{{ [ 1 , 2 ]|join(',') }}"}, {"{{ [1, 2]|join(',') }}", "{{ [1, 2,]|join(',') }}"}, {"{{ [1, 2]|join(',') }}", "{{ [1, 2, ]|join(',') }}"}, {"{{ []|length }}", "{{ [ ]|length }}"},
+			{"{{ {'a': 1}.a }}", "{{ { 'a' : 1 }.a }}"}, {"{{ {'a': 1}.a }}", "{{ {'a': 1,}.a }}"}, {"{{ {'a': 1}.a }}", "{{ {'a': 1, }.a }}"}, {"{{ {}|length }}", "{{ { }|length }}"},
+			{"{{ 'a' }}", "{{ \"a\" }}"}, {"{{ 'a' ~ 'b' }}", "{{ \"a\" ~ \"b\" }}"},
+			{"{% if x %}y{% endif %}", "{%if x%}y{%endif%}"}, {"{% if x %}y{% endif %}", "{%\nif\tx\r\n%}y{%   endif   %}"}, {"{% if x %}a{% else %}b{% endif %}", "{%if x%}a{%else%}b{%endif%}"},
+			{"{% for i in xs %}{{ i }}{% endfor %}", "{%for i in xs%}{{i}}{%endfor%}"}, {"{% for k, v in xs %}{{ k }}{% endfor %}", "{% for k,v in xs %}{{ k }}{% endfor %}"}, {"{% for k, v in xs %}{{ k }}{% endfor %}", "{% for k , v in xs %}{{ k }}{% endfor %}"},
+			{"{% set a = 1 %}{{ a }}", "{%set a=1%}{{a}}"}, {"{% include 'inc' %}", "{%include 'inc'%}"}, {"{% include 'inc' with {'a': 1} only %}", "{% include 'inc'   with   {'a':1}   only %}"},
+			{"{% embed 'e' %}{% block b %}B{% endblock %}{% endembed %}", "{%embed 'e'%}{%block b%}B{%endblock%}{%endembed%}"}, {"{% embed 'e' %}{% endembed %}", "{% embed 'e' %}{% endembed%}"},
+			{"a{{ x }}b", "a{{- x -}}b"}, {"{% if x %}y{% endif %}", "{%- if x -%}y{%- endif -%}"},
+			{"{{ h.k }}", "{{ h[ 'k' ] }}"}, {"{{ h['k'] }}", "{{ h [ 'k' ] }}"}, {"{{ x|length }}", "{{ x | length }}"}, {"{{ x ? 1 : 2 }}", "{{ x?1:2 }}"}, {"{{ 1..3|join }}", "{{ 1 .. 3|join }}"},
+			{"{% macro m(a, b) %}{{ a }}{% endmacro %}{{ _self.m(1) }}", "{% macro m( a , b ) %}{{ a }}{% endmacro %}{{ _self.m( 1 ) }}"},
+			{"{% block b %}x{% endblock %}", "{%block b%}x{%endblock%}"}, {"{% filter upper %}x{% endfilter %}", "{%filter upper%}x{%endfilter%}"}, {"{% verbatim %}v{% endverbatim %}", "{%verbatim%}v{%endverbatim%}"},
+		}
+		for _, p := range pairs {
+			if a, b := rnd(p[0]), rnd(p[1]); a != b || a == "ERR" {
+				fmt.Printf("REPLAY-FAIL class=render/C14 %q renders %q but %q renders %q\n", p[0], a, p[1], b)
+				t.Fail()
+			}
+		}
+	}
 	if prop == "C12" || prop == "all" {
 		env := New(nil)
 		var b bytes.Buffer
